@@ -80,6 +80,11 @@ def templates():
                                    "aeqpt $0 $1 $2 $3;tf $0 $1" % (v.ext(), v.ext(), v.fe())))
     for op in ("addraw", "add", "sub"):
         T.append(("pole-" + op, lambda v, op=op: "%s;%s $0 $1 $2 $3" % (v.pole(), op)))
+    # the composer's constant witnesses #0 / #1 as gadget operands
+    for w in (0, 1, 2, 3, 64, 255, 256):
+        T.append(("const-rangebits-%d" % w, lambda v, w=w: "rangebits %d #1;rangebits %d #0;rangert %d #1" % (w, w, min(w, 254))))
+    T.append(("const-gadgets", lambda v: "and 3 #1 #1;xor 3 #0 #1;trunc 5 #1;trunc 0 #1;decomp 4 #1;sel #1 #0 #1;bool #1;bool #0;"
+                                          "aeq #0 #0;gadd 0 1 1 0 0 - #1 #1 #0;range 0 #1;range 1 #1"))
     T.append(("cpt", lambda v: "cpt %s" % v.ext()))
     T.append(("ppt", lambda v: "ppt %s;w 1;w 1;aeqppt $2 $3 %s" % (v.ext(), v.ext())))
     T.append(("mulpt", lambda v: "pt %s;w %s;mulpt $2 $0 $1" % (v.ext(), v.fe())))
